@@ -52,74 +52,7 @@ func runC18(c *core.Ctx, o Options) {
 	}
 	nTag := needleCensus(c, "needle", scope)
 	c.Check(nTag >= 6, "needle", "", "tag searches found", token.NoPos, fmt.Sprint(nTag), fmt.Sprintf("only %d tag-derived searches found; 6 were confirmed by reading", nTag))
-	// ---- the repeating-group separator
-	um := c.Func("fix/encoding", "state.unmarshal")
-	sg := c.Func("fix/encoding", "splitGroup")
-	if c.Anchor("group splitting", um != nil && sg != nil, "state.unmarshal / splitGroup", posOf(um)) {
-		var call *ssa.Call
-		an.AllInstrs(um, func(in ssa.Instruction) {
-			if cl, ok := in.(*ssa.Call); ok && an.StaticCallee(&cl.Call) == sg {
-				call = cl
-			}
-		})
-		ob := c.Ob("needle", "state.unmarshal", "group separator = SOH·firstTag·'=' taken at the delimiter after the count field", posOf(um))
-		if call == nil {
-			ob.Fail("splitGroup is not called")
-		} else {
-			sep, okS := call.Call.Args[1].(*ssa.Slice)
-			line, okL := call.Call.Args[0].(*ssa.Slice)
-			switch {
-			case !okS || !okL || sep.X != ssa.Value(line) || sep.Low != nil:
-				ob.Fail("the separator %s is not a prefix of the byte string being split", an.Render(call.Call.Args[1]))
-			case line.High != nil || line.Low == nil:
-				ob.Fail("the string being split is %s", an.Render(line))
-			default:
-				lo := an.Render(line.Low)
-				base := an.Render(line.X)
-				hi := an.Render(sep.High)
-				// lo must be  (a + bytes.Index(base[a:], Delimiter))  and  hi  (bytes.Index(line, '=') + 1)
-				okLo := false
-				if bo, ok := line.Low.(*ssa.BinOp); ok && bo.Op == token.ADD {
-					for _, pair := range [][2]ssa.Value{{bo.X, bo.Y}, {bo.Y, bo.X}} {
-						if idx, ok := pair[1].(*ssa.Call); ok && an.CalleeIs(&idx.Call, "bytes", "Index") {
-							ev := &an.SeqEval{}
-							if ev.Eval(idx.Call.Args[1]).Norm().String() == "'␁'" && an.Render(idx.Call.Args[0]) == base+"["+an.Render(pair[0])+":]" {
-								okLo = true
-							}
-						}
-					}
-				}
-				okHi := false
-				if bo, ok := sep.High.(*ssa.BinOp); ok && bo.Op == token.ADD {
-					if k, ok := an.ConstInt(bo.Y); ok && k == 1 {
-						if idx, ok := bo.X.(*ssa.Call); ok && an.CalleeIs(&idx.Call, "bytes", "Index") && idx.Call.Args[0] == ssa.Value(line) {
-							ev := &an.SeqEval{}
-							if ev.Eval(idx.Call.Args[1]).Norm().String() == "'='" {
-								okHi = true
-							}
-						}
-					}
-				}
-				if okLo && okHi {
-					ob.Ok("separator = line[:Index(line,'=')+1] with line = data[a+Index(data[a:], SOH):]")
-				} else {
-					ob.Fail("the separator must start at the delimiter that follows the count field and end with the first '=' (line starts at %s, separator ends at %s): otherwise entries are also cut inside values and longer tags", lo, hi)
-				}
-			}
-		}
-		// splitGroup searches for the separator strictly after the first byte and cuts at the match
-		okSplit := false
-		an.AllInstrs(sg, func(in ssa.Instruction) {
-			if cl, ok := in.(*ssa.Call); ok && an.CalleeIs(&cl.Call, "bytes", "Index") && cl.Call.Args[1] == ssa.Value(sg.Params[1]) {
-				if sl, ok := cl.Call.Args[0].(*ssa.Slice); ok && sl.High == nil {
-					if k, ok := an.ConstInt(sl.Low); ok && k == 1 {
-						okSplit = true
-					}
-				}
-			}
-		})
-		c.Check(okSplit, "needle", "splitGroup", "the next entry is found by searching the whole separator after the current entry's first byte", sg.Pos(), "Index(line[1:], firstTag)", "splitGroup does not search Index(line[1:], separator)")
-	}
+	checkGroupSeparator(c, "needle")
 	// ---- the lookups the handler and the session make on raw bytes use the configured tags
 	for _, pk := range []string{"", "session"} {
 		pkg := c.SSAPkg(pk)
@@ -285,4 +218,77 @@ func needleCensus(c *core.Ctx, rule string, scope []*ssa.Function) int {
 		})
 	}
 	return nTag
+}
+
+// checkGroupSeparator: the repeating-group separator is SOH·firstTag·'=' taken at the delimiter after the count field, and
+// splitGroup searches for the whole separator after the current entry's first byte.
+func checkGroupSeparator(c *core.Ctx, rule string) {
+	// ---- the repeating-group separator
+	um := c.Func("fix/encoding", "state.unmarshal")
+	sg := c.Func("fix/encoding", "splitGroup")
+	if c.Anchor("group splitting", um != nil && sg != nil, "state.unmarshal / splitGroup", posOf(um)) {
+		var call *ssa.Call
+		an.AllInstrs(um, func(in ssa.Instruction) {
+			if cl, ok := in.(*ssa.Call); ok && an.StaticCallee(&cl.Call) == sg {
+				call = cl
+			}
+		})
+		ob := c.Ob(rule, "state.unmarshal", "group separator = SOH·firstTag·'=' taken at the delimiter after the count field", posOf(um))
+		if call == nil {
+			ob.Fail("splitGroup is not called")
+		} else {
+			sep, okS := call.Call.Args[1].(*ssa.Slice)
+			line, okL := call.Call.Args[0].(*ssa.Slice)
+			switch {
+			case !okS || !okL || sep.X != ssa.Value(line) || sep.Low != nil:
+				ob.Fail("the separator %s is not a prefix of the byte string being split", an.Render(call.Call.Args[1]))
+			case line.High != nil || line.Low == nil:
+				ob.Fail("the string being split is %s", an.Render(line))
+			default:
+				lo := an.Render(line.Low)
+				base := an.Render(line.X)
+				hi := an.Render(sep.High)
+				// lo must be  (a + bytes.Index(base[a:], Delimiter))  and  hi  (bytes.Index(line, '=') + 1)
+				okLo := false
+				if bo, ok := line.Low.(*ssa.BinOp); ok && bo.Op == token.ADD {
+					for _, pair := range [][2]ssa.Value{{bo.X, bo.Y}, {bo.Y, bo.X}} {
+						if idx, ok := pair[1].(*ssa.Call); ok && an.CalleeIs(&idx.Call, "bytes", "Index") {
+							ev := &an.SeqEval{}
+							if ev.Eval(idx.Call.Args[1]).Norm().String() == "'␁'" && an.Render(idx.Call.Args[0]) == base+"["+an.Render(pair[0])+":]" {
+								okLo = true
+							}
+						}
+					}
+				}
+				okHi := false
+				if bo, ok := sep.High.(*ssa.BinOp); ok && bo.Op == token.ADD {
+					if k, ok := an.ConstInt(bo.Y); ok && k == 1 {
+						if idx, ok := bo.X.(*ssa.Call); ok && an.CalleeIs(&idx.Call, "bytes", "Index") && idx.Call.Args[0] == ssa.Value(line) {
+							ev := &an.SeqEval{}
+							if ev.Eval(idx.Call.Args[1]).Norm().String() == "'='" {
+								okHi = true
+							}
+						}
+					}
+				}
+				if okLo && okHi {
+					ob.Ok("separator = line[:Index(line,'=')+1] with line = data[a+Index(data[a:], SOH):]")
+				} else {
+					ob.Fail("the separator must start at the delimiter that follows the count field and end with the first '=' (line starts at %s, separator ends at %s): otherwise entries are also cut inside values and longer tags", lo, hi)
+				}
+			}
+		}
+		// splitGroup searches for the separator strictly after the first byte and cuts at the match
+		okSplit := false
+		an.AllInstrs(sg, func(in ssa.Instruction) {
+			if cl, ok := in.(*ssa.Call); ok && an.CalleeIs(&cl.Call, "bytes", "Index") && cl.Call.Args[1] == ssa.Value(sg.Params[1]) {
+				if sl, ok := cl.Call.Args[0].(*ssa.Slice); ok && sl.High == nil {
+					if k, ok := an.ConstInt(sl.Low); ok && k == 1 {
+						okSplit = true
+					}
+				}
+			}
+		})
+		c.Check(okSplit, rule, "splitGroup", "the next entry is found by searching the whole separator after the current entry's first byte", sg.Pos(), "Index(line[1:], firstTag)", "splitGroup does not search Index(line[1:], separator)")
+	}
 }
